@@ -300,6 +300,11 @@ pub fn function_value_model() -> dmn::Model {
       ]),
     ),
   ];
+  // F10: a decision service taken out of the model as a function value (its parameter is its input data `n`)
+  m.inputs.push(dmn::Input { name: "n".into(), type_ref: "number".into() });
+  m.decisions.push(dmn::Decision { name: "Doubled".into(), type_ref: None, requires: dmn::Requires { inputs: vec!["n".into()], ..Default::default() }, logic: Some(dmn::Expr::lit("n * 2")) });
+  m.services.push(dmn::Service { name: "F10".into(), type_ref: None, output_decisions: vec!["Doubled".into()], encapsulated_decisions: vec![], input_decisions: vec![], input_data: vec!["n".into()] });
+  m.decisions.push(dmn::Decision { name: "GetF10".into(), type_ref: None, requires: dmn::Requires { knowledge: vec!["F10".into()], ..Default::default() }, logic: Some(dmn::Expr::lit("F10")) });
   for (name, logic) in bodies {
     let knowledge = match name {
       "F4" => vec!["F2".to_string()],
@@ -365,7 +370,7 @@ fn family_function_values(run: &Run) -> (u64, u64) {
   let num = |i: i128| Value::Number(dmntk_feel::FeelNumber::from_i128(i));
   let mut cases = 0u64;
   let mut checks = 0u64;
-  for k in 1..=9 {
+  for k in 1..=10 {
     let name = format!("F{}", k);
     let f = me.evaluate_invocable(&format!("Get{}", name), &FeelContext::default());
     if !matches!(f, Value::FunctionDefinition(..)) {
